@@ -1,0 +1,14 @@
+//go:build verif
+
+package internal
+
+// Contracts for the verification machinery in /verif (comment-only file;
+// excluded from every build without the "verif" tag).
+
+//@ func (Context).Quo
+//@   assumed A-int: apd Quo followed by reduceKeepingFloats (which rewrites coefficient and exponent without changing the value); a zero divisor raises DivisionByZero/DivisionUndefined
+//@   requires wfDec(x) && wfDec(y)
+//@   ensures wfDec(d)
+//@   ensures result1 == nil && old(x.Form) == apd.Finite && old(y.Form) == apd.Finite ==> d.Form == apd.Finite
+//@   ensures old(y.Form) == apd.Finite && decSign(old(y.ip), old(y.fp)) == 0 ==> result1 != nil || condDivByZero(result0)
+//@   assigns d.*
